@@ -25,7 +25,19 @@ type Env struct {
 	old  *State
 	pkg  string
 	pure bool // inside a define: no state access
-	qdepth int // >0 inside a (non-unrolled) quantifier or a define body
+	qdepth int // >0 inside a (non-unrolled) quantifier
+	unroll bool      // render literal-range quantifiers as conjunctions (candidate-model rendering)
+	reads  *[]string // inside a define body: seq element reads (in terms of the parameters)
+}
+
+// seqFact: seq is a sequence of bytes; every element that is read gets its
+// range fact (instantiated per term instead of a quantified axiom).
+func (t *Tr) seqFact(el string) {
+	if t.vc.seqSeen[el] {
+		return
+	}
+	t.vc.seqSeen[el] = true
+	t.assumeRaw(fmt.Sprintf("(and (<= 0 %s) (<= %s 255))", el, el))
 }
 
 type evalErr string
@@ -40,6 +52,26 @@ func (e *Env) with(name string, v Val) *Env {
 	}
 	n.vars[name] = v
 	return &n
+}
+
+// Cl is a clause in two renderings: Q keeps quantifiers (used for proving),
+// U unrolls literal-range quantifiers (used to search for candidate counter-models).
+type Cl struct{ Q, U string }
+
+func (e *Env) evalClause(x SExpr) (Cl, error) {
+	eq := *e
+	eq.unroll = false
+	q, err := eq.evalBool(x)
+	if err != nil {
+		return Cl{}, err
+	}
+	eu := *e
+	eu.unroll = true
+	u, err := eu.evalBool(x)
+	if err != nil {
+		return Cl{}, err
+	}
+	return Cl{q, u}, nil
 }
 
 // evalBool evaluates a clause to a Bool term; errors are returned.
@@ -360,8 +392,14 @@ func (e *Env) index(x *SIndex) Val {
 	if isSeq(v.Ty) {
 		// seq is a sequence of bytes: every element read is in [0,255]
 		el := fmt.Sprintf("(select %s %s)", v.T.S, i.T.S)
-		if e.qdepth == 0 && !e.pure {
-			t.assumeRaw(fmt.Sprintf("(and (<= 0 %s) (<= %s 255))", el, el))
+		if e.qdepth == 0 {
+			if e.pure {
+				if e.reads != nil {
+					*e.reads = append(*e.reads, el)
+				}
+			} else {
+				t.seqFact(el)
+			}
 		}
 		return Val{T: Term{el, SInt_}, Ty: tInt}
 	}
@@ -534,10 +572,13 @@ func (e *Env) quant(x *SQuant) Val {
 	// bounded unrolling: forall i int :: lo <= i && i < hi ==> P with literal bounds
 	if x.Forall && len(x.Vars) == 1 {
 		if imp, ok := x.Body.(*SBinary); ok && imp.Op == "==>" {
-			if lo, hi, ok := e.literalRange(x.Vars[0].Name, imp.X); ok && hi-lo <= 128 {
+			// small literal ranges are always unrolled (cheap, and they keep the reasoning ground);
+			// large ones only in the unrolled renderings
+			if lo, hi, ok := e.literalRange(x.Vars[0].Name, imp.X); ok && (hi-lo <= 16 || (e.unroll && hi-lo <= 128)) {
 				var parts []string
 				for i := lo; i < hi; i++ {
 					ne := e.with(x.Vars[0].Name, Val{T: Term{smtInt(strconv.FormatInt(i, 10)), SInt_}, Ty: tInt, Untyped: true})
+					ne.qdepth++ // no per-read range facts for unrolled instances (they swamp the arithmetic solver)
 					g := ne.rvalue(ne.eval(imp.X))
 					if g.T.S == "false" {
 						continue
@@ -548,6 +589,17 @@ func (e *Env) quant(x *SQuant) Val {
 					} else {
 						parts = append(parts, fmt.Sprintf("(=> %s %s)", g.T.S, b.T.S))
 					}
+				}
+				return boolVal(mkAnd(parts...))
+			}
+			if base, k, ok := e.offsetRange(x.Vars[0].Name, imp.X); ok && (k <= 16 || e.unroll) {
+				bv := e.rvalue(e.eval(base))
+				var parts []string
+				for i := int64(0); i < k; i++ {
+					ne := e.with(x.Vars[0].Name, Val{T: Term{foldArith("+", bv.T.S, strconv.FormatInt(i, 10)), SInt_}, Ty: tInt})
+					ne.qdepth++
+					b := ne.rvalue(ne.eval(imp.Y))
+					parts = append(parts, b.T.S)
 				}
 				return boolVal(mkAnd(parts...))
 			}
@@ -591,6 +643,68 @@ func (e *Env) quant(x *SQuant) Val {
 
 // literalRange recognises `lo <= i && i < hi` (in any order, possibly with
 // extra conjuncts that are ignored) where lo and hi fold to literals.
+// offsetRange recognises `L <= i && i < L + K` with K a literal: the instances
+// are i = L + 0 .. L + K-1.
+func (e *Env) offsetRange(name string, g SExpr) (SExpr, int64, bool) {
+	b, ok := g.(*SBinary)
+	if !ok || b.Op != "&&" {
+		return nil, 0, false
+	}
+	lo, ok1 := b.X.(*SBinary)
+	hi, ok2 := b.Y.(*SBinary)
+	if !ok1 || !ok2 || lo.Op != "<=" || hi.Op != "<" {
+		return nil, 0, false
+	}
+	if id, ok := lo.Y.(*SIdent); !ok || id.Name != name {
+		return nil, 0, false
+	}
+	if id, ok := hi.X.(*SIdent); !ok || id.Name != name {
+		return nil, 0, false
+	}
+	if usesIdent(lo.X, name) {
+		return nil, 0, false
+	}
+	sum, ok := hi.Y.(*SBinary)
+	if !ok || sum.Op != "+" {
+		return nil, 0, false
+	}
+	k, ok := sum.Y.(*SInt)
+	if !ok || fmt.Sprint(sum.X) != fmt.Sprint(lo.X) || !sameExpr(sum.X, lo.X) {
+		return nil, 0, false
+	}
+	v, err := strconv.ParseInt(k.V, 10, 64)
+	if err != nil || v > 128 {
+		return nil, 0, false
+	}
+	return lo.X, v, true
+}
+
+func sameExpr(a, b SExpr) bool { return exprString(a) == exprString(b) }
+
+func exprString(x SExpr) string {
+	switch x := x.(type) {
+	case *SIdent:
+		return x.Name
+	case *SInt:
+		return x.V
+	case *SBinary:
+		return "(" + exprString(x.X) + x.Op + exprString(x.Y) + ")"
+	case *SUnary:
+		return x.Op + exprString(x.X)
+	case *SSel:
+		return exprString(x.X) + "." + x.Sel
+	case *SIndex:
+		return exprString(x.X) + "[" + exprString(x.I) + "]"
+	case *SCall:
+		s := exprString(x.Fun) + "("
+		for _, a := range x.Args {
+			s += exprString(a) + ","
+		}
+		return s + ")"
+	}
+	return fmt.Sprintf("%p", x)
+}
+
 func (e *Env) literalRange(name string, g SExpr) (int64, int64, bool) {
 	var conj []SExpr
 	var flat func(SExpr)
@@ -785,7 +899,7 @@ func (e *Env) call(x *SCall) Val {
 		if len(x.Args) != len(d.Params) {
 			efail("pred %s: want %d args", d.Name, len(d.Params))
 		}
-		ne := &Env{t: t, vars: map[string]Val{}, cur: e.cur, old: e.old, pkg: d.Pkg}
+		ne := &Env{t: t, vars: map[string]Val{}, cur: e.cur, old: e.old, pkg: d.Pkg, unroll: e.unroll, qdepth: e.qdepth}
 		for i, p := range d.Params {
 			ty, err := t.w.resolveType(p.Ty, d.Pkg)
 			if err != nil {
@@ -885,6 +999,9 @@ func (e *Env) ghostApp(g *GhostDecl, args []SExpr) Val {
 func (e *Env) defineApp(d *DefineDecl, args []SExpr) Val {
 	t := e.t
 	name := "df_" + d.Name
+	if e.unroll {
+		name = "dfu_" + d.Name
+	}
 	rty, err := t.w.resolveType(d.Result, d.Pkg)
 	if err != nil {
 		efail("define %s: %v", d.Name, err)
@@ -892,7 +1009,8 @@ func (e *Env) defineApp(d *DefineDecl, args []SExpr) Val {
 	if !t.vc.funSeen[name] {
 		t.vc.funSeen[name] = true
 		// evaluate body in a pure env
-		ne := &Env{t: t, vars: map[string]Val{}, pkg: d.Pkg, pure: true}
+		var reads []string
+		ne := &Env{t: t, vars: map[string]Val{}, pkg: d.Pkg, pure: true, reads: &reads, unroll: e.unroll}
 		var ps []string
 		for _, p := range d.Params {
 			ty, err := t.w.resolveType(p.Ty, d.Pkg)
@@ -908,7 +1026,25 @@ func (e *Env) defineApp(d *DefineDecl, args []SExpr) Val {
 		if d.Rec {
 			kw = "define-fun-rec"
 		}
-		t.vc.FunDecl = append(t.vc.FunDecl, fmt.Sprintf("(%s %s (%s) %s %s)", kw, name, strings.Join(ps, " "), t.vc.sortOf(rty), body.T.S))
+		if e.unroll || d.Rec || len(ps) == 0 {
+			tag := ""
+			if e.unroll {
+				tag = ";;U\n"
+			}
+			t.vc.FunDecl = append(t.vc.FunDecl, tag+fmt.Sprintf("(%s %s (%s) %s %s)", kw, name, strings.Join(ps, " "), t.vc.sortOf(rty), body.T.S))
+		} else {
+			// quantified rendering: an uninterpreted symbol with its definition as a
+			// triggered axiom, so applications can serve as instantiation patterns
+			var sorts, names []string
+			for _, p := range d.Params {
+				ty, _ := t.w.resolveType(p.Ty, d.Pkg)
+				sorts = append(sorts, string(t.vc.sortOf(ty)))
+				names = append(names, "p_"+p.Name)
+			}
+			app := fmt.Sprintf("(%s %s)", name, strings.Join(names, " "))
+			t.vc.FunDecl = append(t.vc.FunDecl, fmt.Sprintf(";;Q\n(declare-fun %s (%s) %s)\n(assert (forall (%s) (! (= %s %s) :pattern (%s))))", name, strings.Join(sorts, " "), t.vc.sortOf(rty), strings.Join(ps, " "), app, body.T.S, app))
+		}
+		t.vc.defReads[name] = reads
 	}
 	if len(args) != len(d.Params) {
 		efail("define %s: want %d args", d.Name, len(d.Params))
@@ -916,6 +1052,22 @@ func (e *Env) defineApp(d *DefineDecl, args []SExpr) Val {
 	var as []string
 	for _, a := range args {
 		as = append(as, e.rvalue(e.eval(a)).T.S)
+	}
+	if e.qdepth == 0 && len(t.vc.defReads[name]) > 0 {
+		var pairs []string
+		for i, p := range d.Params {
+			pairs = append(pairs, "p_"+p.Name, as[i])
+		}
+		for _, rd := range t.vc.defReads[name] {
+			inst := substTokens(rd, pairs)
+			if e.pure {
+				if e.reads != nil {
+					*e.reads = append(*e.reads, inst)
+				}
+			} else {
+				t.seqFact(inst)
+			}
+		}
 	}
 	if len(as) == 0 {
 		return Val{T: Term{name, t.vc.sortOf(rty)}, Ty: rty}
@@ -936,4 +1088,33 @@ func (t *Tr) mapHeaps(st *State, mt *types.Map) (string, string) {
 	md := t.heapGet(st, "MD_"+k, Sort(fmt.Sprintf("(Array Int (Array %s Bool))", ks)))
 	mv := t.heapGet(st, "MV_"+k, Sort(fmt.Sprintf("(Array Int (Array %s %s))", ks, vs)))
 	return md, mv
+}
+
+// substTokens replaces whole tokens (delimited by spaces and parentheses).
+func substTokens(s string, pairs []string) string {
+	var b strings.Builder
+	i := 0
+	for i < len(s) {
+		c := s[i]
+		if c == ' ' || c == '(' || c == ')' {
+			b.WriteByte(c)
+			i++
+			continue
+		}
+		j := i
+		for j < len(s) && s[j] != ' ' && s[j] != '(' && s[j] != ')' {
+			j++
+		}
+		tok := s[i:j]
+		rep := tok
+		for k := 0; k+1 < len(pairs); k += 2 {
+			if pairs[k] == tok {
+				rep = pairs[k+1]
+				break
+			}
+		}
+		b.WriteString(rep)
+		i = j
+	}
+	return b.String()
 }
